@@ -138,6 +138,9 @@ def make_op(rng, kind):
     if kind == "date":
         t, f = date_op(rng)
         return "dt:%s:%s" % (t.hex(), f)
+    if kind in ("qp", "la"):
+        isz = rng.choice([1, 2, 8, 24, 127, 128, 129, 200, 300, 1000])
+        return "%s:%s" % (kind, (struct.pack(">HB", isz, rng.randint(8, 60)) + bytes(rng.getrandbits(8) for _ in range(4))).hex())
     raise ValueError(kind)
 
 
